@@ -64,6 +64,13 @@ def run(run):
                                 return {"0": "NAME", "1": "DECL"}.get(idx[-1] if idx else "", "?")
                             return "?"
                         check_template(lc, val, item_is)
+            # `Itertools::join` straight on the mapped iterator (no intermediate Vec): the receiver is the iterator itself
+            if lst[0] == "phi" and not ok_shape:
+                alts_ = [strip(x) for x in lst[1] if not (strip(x)[0] == "mutated_by" and re.search(r"::join$", strip(x)[1]))]
+                if len(alts_) == 1:
+                    lst = alts_[0]
+            if lst[0] == "call" and re.search(r"Iterator::map$", lst[1]):
+                lst = ("call", "core::iter::traits::iterator::Iterator::collect", (lst,), 0)
             if lst[0] == "call" and re.search(r"Iterator::collect$", lst[1]):
                 mp = strip(lst[2][0])
                 if mp[0] == "call" and re.search(r"Iterator::map$", mp[1]):
@@ -337,7 +344,7 @@ def run(run):
     run.assume("the float comparisons of can_fit are exact on the values compared (no tolerance); what bounds() returns for each shape is C12's/C05's matter")
 
 
-VEC_REWRITE = re.compile(r"Vec::<T, A>::(iter_mut|retain|retain_mut|dedup\w*|insert|remove|swap_remove|clear|truncate|pop|drain|split_off|resize\w*|append)$|"
+VEC_REWRITE = re.compile(r"Vec::<T, A>::(iter_mut|retain|retain_mut|dedup\w*|insert|remove|swap_remove|clear|truncate|pop|drain|split_off|resize\w*)$|"
                          r"<impl \[T\]>::(iter_mut|sort\w*|reverse|swap|rotate_\w+|fill\w*|last_mut|first_mut|get_mut)$|IndexMut<.*>>::index_mut$|DerefMut>::deref_mut$")
 
 
@@ -364,6 +371,10 @@ def l6(run):
             n = Program.callee_name(t)
             if VEC_REWRITE.search(n):
                 writers.append((p, t, n))
+            elif re.search(r"Vec::<T, A>::append$", n) and len(t["args"]) == 2 and \
+                    (lambda v: any(strip(a_)[0] == "param" and not strip(a_)[2] for a_ in (v[1] if v[0] == "phi" else [v])) and
+                     all(strip(a_)[0] in ("param", "mutated_by") for a_ in (v[1] if v[0] == "phi" else [v])))(strip(ex.operand(t["args"][1]))):
+                appends.append((p, t, n))   # `self.css_styles.append(&mut parsed)`: moves every entry over, in order
             elif re.search(r"Extend<.*>>::extend$|Vec::<T, A>::extend_from_slice$", n) and len(t["args"]) == 2:
                 src = strip(ex.operand(t["args"][1]))
                 whole = src[0] == "param" and not src[2] or (src[0] == "call" and re.search(r"into_iter$|::iter$|Clone>::clone$", src[1]) and strip(src[2][0])[0] == "param" and not strip(src[2][0])[2])
